@@ -53,7 +53,13 @@ fn main() {
                             std::process::exit(2);
                         }
                     }
-                    runner::run_check(&*s, tier, seed_from_env(), workers(), true).exit
+                    match std::panic::catch_unwind(std::panic::AssertUnwindSafe(|| runner::run_check(&*s, tier, seed_from_env(), workers(), true).exit)) {
+                        Ok(c) => c,
+                        Err(_) => {
+                            eprintln!("harness error: the simulator itself panicked (this is not a property violation)");
+                            2
+                        }
+                    }
                 }
                 None => {
                     eprintln!("unknown property {id}");
